@@ -642,6 +642,15 @@ class MQTTProtocol(MQTTBaseProtocol):
             del self.factory.windowPubRelease[self.addr][k]
             request.deferred.errback(reason)
 
+        # messages still waiting for a free slot in the window belong to the session too
+        queue = self.factory.queuePublishTx[self.addr]
+        for request in list(queue):
+            if keepOwn and request.protocol is self:
+                continue
+            queue.remove(request)
+            if request.msgId:   # QoS 0 deferreds have already fired
+                request.deferred.errback(reason)
+
 
     # -------------------------------------
     # Helper methods (publisher/subscriber)
